@@ -19,6 +19,11 @@ Layers (DESIGN.md section 3 / 5-C11):
   4. functional: the same (salt, number) through many instances, list orders,
      lists, FileAnonymizer, after decoy anonymizers with other salts, and in
      fresh interpreter processes under different PYTHONHASHSEED values.
+  5. generated salt: FileAnonymizer without a salt generates and reports one
+     (public attribute .salt, else the WARNING record); that reported salt S is
+     the salt in use, so the replacements it produces must be those of
+     AsNumberAnonymizer(list, S) and of FileAnonymizer(salt=S, ...), in this
+     process and in fresh ones.
 Every recorded call is an event judged by TLC against the R part of
 spec/AsNum.tla via spec/AsNumTrace.tla; nothing is decided in Python.
 """
@@ -213,6 +218,8 @@ def materialize(traces, ck=None):
             t.events += parts[(ti, si)]
         if len(t.events) != 1 + t.nops():
             raise MachineryError("recorder lost events")
+        if any(e.get("salt_unobserved") for e in t.events):
+            t.drift.append("generated salt not observable (no .salt attribute, no WARNING record): %s" % (t.meta,))
     if ck is not None:
         ck.notes["md5_seam"] = {"cases_with_injected_hash": seam_used, "cases_where_seam_was_absent_or_unused": seam_missing}
     return traces
@@ -515,6 +522,46 @@ def gen_functional(r, thorough):
     return traces
 
 
+def gen_nosalt(r, thorough):
+    """No salt supplied: FileAnonymizer generates a salt S and reports it (attribute .salt / WARNING record).
+    S is then the salt in use: the (number -> replacement) pairs seen through that instance, through a direct
+    AsNumberAnonymizer(list, S) and through FileAnonymizer(salt=S, ...) are fed into ONE learned map
+    asMap[S] (for this family the class instance joins FileAnonymizer's salt name space: the reported salt
+    is by definition the one the numbers are keyed with).  Every process generates its own S."""
+    traces = []
+    p = digs(r, 2)
+    q = p + digs(r, 1)
+    lists = [("block-end-points", ["0", "64511", "64512", "65535", "65536", "4199999999", "4200000000", "4294967295"]),
+             ("prefix-chain short-first", [p, q, q + digs(r, 1)])]
+    if thorough:
+        lists += [("single-b2", [str(r.randrange(70000, 4199999000))]), ("one-digit", ["1", "2", "7"]),
+                  ("inner numbers", [str(n) for n in MIDS])]
+    wheres = ["here", ("child", "0")] + ([("child", "1"), ("child", "random")] if thorough else [])
+    for shape, lst in lists:
+        for where in wheres:
+            proc = "this process" if where == "here" else "fresh process hashseed=%s" % where[1]
+            lab = "list=%s %s" % (shape, proc)
+            t = T("generated-salt", shape=shape, process=proc)
+            t.seg(where)
+            t._op(["new", 1, "file", None, lst], "FileAnonymizer without salt (generates and reports S) %s api=file" % lab)
+            for n in lst:
+                t.line(1, "router bgp " + n + "\n", "form=config n=%s FileAnonymizer without salt %s api=file" % (nlabel(n), lab))
+            t.line(1, "x(" + lst[0] + ") " + lst[-1] + "9 _" + lst[-1] + "_\n", "form=mixed FileAnonymizer without salt %s api=file" % lab)
+            t._op(["new", 2, "class", {"of": 1}, lst, "file"], "direct AsNumberAnonymizer(list, reported salt S) %s api=class" % lab)
+            t.anon(2, lst, labels=["n=%s direct AsNumberAnonymizer with the reported salt S vs FileAnonymizer without salt %s" % (nlabel(n), lab)
+                                   for n in lst])
+            t._op(["new", 3, "file", {"of": 1}, lst[::-1]], "FileAnonymizer(salt=reported S) re-run %s api=file" % lab)
+            for n in lst[::-1]:
+                t.line(3, " neighbor x remote-as " + n + "\n",
+                       "form=config n=%s FileAnonymizer(salt=reported S) re-run vs FileAnonymizer without salt %s api=file" % (nlabel(n), lab))
+            t._op(["new", 4, "file", None, lst], "second FileAnonymizer without salt (its own S') %s api=file" % lab)
+            t.line(4, "router bgp " + lst[0] + "\n", "form=config second FileAnonymizer without salt %s api=file" % lab)
+            t._op(["new", 5, "class", {"of": 4}, lst, "file"], "direct AsNumberAnonymizer(list, reported salt S') %s api=class" % lab)
+            t.anon(5, lst[:1], labels=["n=%s direct AsNumberAnonymizer with the reported salt S' %s" % (nlabel(lst[0]), lab)])
+            traces.append(t)
+    return traces
+
+
 def gen_special(r, thorough):
     traces = []
     for kind in ("class", "file"):
@@ -617,7 +664,10 @@ def describe(t, k, clause):
         what = json.dumps(e)[:300]
     key = "family=%s clause=%s %s" % (t.family, base, label)
     news = [t.events[i] for i in range(k, 0, -1) if t.events[i]["ev"] == "new"]
-    salt = bytes.fromhex(news[0]["salt"][1:]).decode("utf-8") if news else None
+    try:
+        salt = bytes.fromhex(news[0]["salt"][1:]).decode("utf-8") if news else None
+    except ValueError:
+        salt = None             # opaque one-off salt id (reported salt could not be observed)
     return key, "%s (R clause %s; most recent salt %r; %s)" % (what, base, salt, label)
 
 
@@ -717,6 +767,7 @@ def build_traces(pid, tier):
     traces += gen_predicted(thorough)
     traces += gen_functional(rng(pid, "functional"), thorough)
     traces += gen_lines(rng(pid, "lines"), thorough)
+    traces += gen_nosalt(rng(pid, "nosalt"), thorough)
     traces += gen_special(rng(pid, "special"), thorough)
     traces += gen_bulk(rng(pid, "bulk"), thorough)
     return traces
@@ -728,6 +779,8 @@ def run(pid, tier):
     ck.assumptions = [
         "the block table used by R is the one in the property statement (AsNum.tla RealBounds, checked against 16 hand-written values at TLC start-up)",
         "constructor signatures AsNumberAnonymizer(list of decimal strings, salt) and FileAnonymizer(anon_pwd, anon_ip, salt=, as_numbers=) keep their meaning",
+        "when no salt is supplied, the salt FileAnonymizer reports (public attribute .salt, else the string argument / quoted token of its WARNING record) "
+        "is the salt in use; for that family the direct AsNumberAnonymizer(list, S) shares FileAnonymizer's salt name space",
         "TLC/SANY and the text -> character-code projection are trusted; the md5 seam and the md5(salt+number) prediction only steer coverage (drift, never verdicts)",
         "don't-care (accepted either way, not generated): spellings with leading zeros, digit '.' digit (AS-dot), non-ASCII numeric characters, "
         "list entries that are not canonical decimals in 0..4294967295, anonymize(n) for an unlisted n, an empty list refused with ValueError at construction; "
@@ -768,7 +821,7 @@ def run(pid, tier):
                     if t.family in ("boundary-x-hash", "predicted-salt"):
                         residues.add(pl)
                         ck.count((t.family, pl))
-                    elif t.family == "functional":
+                    elif t.family in ("functional", "generated-salt"):
                         ck.count((t.family, pl))
                     else:
                         ck.count(None)
